@@ -44,6 +44,16 @@ def translate(chk):
     if out["signals"]:
         st["signals"] = "safe_exit registered for " + ", ".join(out["signals"])
     try:
+        rows = c13_handler.exit_interceptors()
+        out["interceptors"] = rows
+        bad = [r for r in rows if c13_handler.intercepts(r)]
+        st["exit_interceptors"] = (f"{len(rows)} try/except, finally-return and suppress constructs in the package; "
+                                   f"{len(bad)} can swallow SystemExit" +
+                                   ("".join(f"; {r[0]}:{r[1]} in {r[2]} ({r[3]})" for r in bad[:6])))
+    except Declined as e:
+        out["interceptors"] = None
+        st["exit_interceptors"] = f"declined: {e}"
+    try:
         ar = c13_handler.around_iteration()
         st["around_iteration"] = "; ".join(f"{k}: " + ("no tracked field written" if not v else "writes " + " | ".join(v))
                                            for k, v in ar.items())
@@ -107,6 +117,25 @@ def today(chk, tr):
                    "any file operation) + instantiated ins_intact", "today", ok, (err or "") + "\n" + tr["ins"])
     else:
         chk.notes.append("tie A (INS checkpoint) declined: the line hook decides alone")
+    if tr.get("interceptors") is not None and tr["handler"] and tr["npw"] is not None:
+        import c13_handler
+        rows = tr["interceptors"]
+        bad = [r for r in rows if c13_handler.intercepts(r)]
+        txt = HDR + f"Definition h_now : list heff := {tr['handler'][0]}.\n"
+        txt += f"Definition x_now : list xentry := {c13_handler.interceptors_coq(rows)}.\n"
+        txt += "Lemma today : no_swallow x_now = true.\nProof. vm_compute. reflexivity. Qed.\n"
+        txt += f"Lemma today_h : handler_ok {cB(tr['npw'])} h_now = true.\nProof. vm_compute. reflexivity. Qed.\n"
+        txt += ("Lemma today_property : forall (S : Type) (cur : S) conf other (w : hworld S) path, exit_code w = None ->\n"
+                "  incl path x_now ->\n"
+                f"  process_exit (hrun cur conf other {cB(tr['npw'])} h_now w) path = Some conf\n"
+                f"  /\\ written (hrun cur conf other {cB(tr['npw'])} h_now w) = written w ++ [cur].\n"
+                f"Proof. intros S cur conf other w path E I. exact (exit_reaches_top cur conf other h_now w {cB(tr['npw'])} x_now path today_h E today I). Qed.\n")
+        ok, _, err = chk.coq_run("today_exit_path", txt)
+        chk.oblige(f"today: no_swallow (none of the {len(rows)} regenerated try/except, finally-return, suppress constructs "
+                   "of the package intercepts the SystemExit the handler raises) + instantiated exit_reaches_top", "today", ok,
+                   (err or "") + " intercepting: " + "; ".join(f"{r[0]}:{r[1]} in {r[2]} ({r[3]}, guarded lines {r[5]}-{r[6]})" for r in bad))
+    else:
+        chk.notes.append("tie A (exit path) declined: the line hook decides alone")
     if tr["signals"] is None:
         chk.notes.append("signal registration not recognised by the translator")
     return summary
@@ -157,6 +186,41 @@ def build_tasks(chk, tr):
             if fn == "finalise" and txt == "self.nested_samples.append(p)":
                 t["skip"] = 2
             tasks.append(t)
+    # plot=True (the library default): update_state produces the diagnostic plots every nlive iterations;
+    # signals inside those functions (first line; thorough: every line) and before the calls themselves
+    nl = 30
+    plot_funcs = [("plot_state", False), ("plot_trace", False), ("plot_insertion_indices", True), ("check_insertion_indices", True)]
+    for fn, thorough_only in plot_funcs:
+        if quick and thorough_only:
+            continue
+        ls = lines(SRC_NS, "NestedSampler", fn)
+        for ln, txt, occ in (ls[:1] if quick else ls):
+            tasks.append({"sampler": "standard", "phase": "plot", "func": "NestedSampler." + fn, "lineno": ln,
+                          "text": txt, "occ": occ, "after": nl, "plot": True})
+    for ln, txt, occ in lines(SRC_NS, "NestedSampler", "update_state"):
+        if "plot" in txt and (not quick or txt.startswith("self.plot_state(")):
+            tasks.append({"sampler": "standard", "phase": "plot", "func": "NestedSampler.update_state", "lineno": ln,
+                          "text": txt, "occ": occ, "after": nl, "plot": True})
+    if not quick:
+        for fn in ("plot_state", "plot_trace"):
+            for ln, txt, occ in lines(SRC_NS, "NestedSampler", fn)[:1]:
+                tasks.append({"sampler": "standard", "phase": "real-signal", "func": "NestedSampler." + fn, "lineno": ln,
+                              "text": txt, "occ": occ, "after": nl, "plot": True, "real_signal": True})
+    # every statement guarded by a construct the translator found to intercept SystemExit (explanation of
+    # a failing today-lemma turned into inputs), for the classes the hook can resolve
+    import c13_handler as _h
+    for r in (tr.get("interceptors") or []):
+        if not _h.intercepts(r):
+            continue
+        parts = r[2].split(".")
+        if len(parts) != 2 or parts[0] not in ("NestedSampler", "BaseNestedSampler", "FlowProposal", "AnalyticProposal",
+                                               "_NSIntegralState"):
+            chk.notes.append(f"intercepting construct outside the hookable classes: {r[0]}:{r[1]} in {r[2]}")
+            continue
+        for ln, txt, occ in lines(r[0], parts[0], parts[1]):
+            if r[5] <= ln <= r[6]:
+                tasks.append({"sampler": "standard", "phase": "guarded", "func": r[2], "lineno": ln, "text": txt,
+                              "occ": occ, "after": nl if "plot" in txt else 6, "plot": True})
     if not quick:
         # the same statement with the REAL signal (os.kill) instead of a direct call of the handler
         for txt in ('self.state.increment(worst["logL"])', "self.nested_samples.append(worst)", "self.iteration += 1",
